@@ -2317,6 +2317,18 @@ def m_option_and_then(I, fr, a, ck):
     return res
 
 
+def m_option_or_else(I, fr, a, ck):
+    """Option::or_else(f): Some(x) stays, None becomes f()"""
+    v, f = a
+    res = Outs()
+    if 0 in v.alts and not g_false(v.alts[0][0]):
+        for o in call_closure(I, fr, f, []):
+            res.append(Outcome(o.kind, gand(v.alts[0][0], o.guard), o.value, o.mem, o.msg))
+    if 1 in v.alts and not g_false(v.alts[1][0]):
+        res.append(ret(mk('Option', 1, [v.alts[1][1][0]]), v.alts[1][0]))
+    return res
+
+
 def m_result_map_err(I, fr, a, ck):
     v, f = a
     res = Outs()
@@ -2413,6 +2425,7 @@ def register_ints(M):
             A(t, 'Ord', m, m_ord_max_min)
     A('Result', None, 'map_err', m_result_map_err)
     A('Option', None, 'and_then', m_option_and_then)
+    A('Option', None, 'or_else', m_option_or_else)
     A('Result', None, 'map', m_result_map)
     A('Result', None, 'ok', m_result_ok)
     for tr, m in (('Shr', 'shr'), ('Shl', 'shl'), ('Add', 'add'), ('Sub', 'sub'), ('Mul', 'mul'), ('BitAnd', 'bitand'), ('BitOr', 'bitor'), ('BitXor', 'bitxor'), ('Not', 'not')):
